@@ -143,6 +143,27 @@ class Interp:
             v[k] = join(x, y)
         return (v, na & nb)
 
+    def _int_switch_source(self, body, place):
+        """the integer variable a SwitchInt discriminant is a copy of: a local, or field i of a tuple local built from locals"""
+        fields = [e for e in place.fields() if e != "*"]
+        l = place.local
+        if not fields:
+            ty = body.locals[l]["s"]
+            if not (is_unsigned(ty) or ty in ("i8", "i16", "i32", "i64", "isize")):
+                return None
+            return self._root(body, l)
+        if len(fields) == 1 and fields[0][0] == "f" and fields[0][1].isdigit():
+            d = self._defs(body).get(l, [])
+            if len(d) == 1 and d[0][0] == "assign" and d[0][2].rv["k"] == "agg" and d[0][2].rv.get("agg") == "tuple":
+                ops = d[0][2].rv["ops"]
+                i = int(fields[0][1])
+                if i < len(ops) and ops[i].place is not None and not [e for e in ops[i].place.fields() if e != "*"]:
+                    src = self._root(body, ops[i].place.local)
+                    ty = body.locals[src]["s"]
+                    if is_unsigned(ty) or ty in ("i8", "i16", "i32", "i64", "isize"):
+                        return src
+        return None
+
     def _root(self, body, local, seen=None):
         """follow single-definition copy/ref temps to the variable they alias"""
         defs = self._defs(body)
@@ -219,6 +240,12 @@ class Interp:
             return NN
         if m in CONVERSIONS and args:
             return self._op_class(body, args[0], vals)
+        if m in ("map_err", "or_else", "ok_or_else", "inspect", "inspect_err") and args and re.search(r"std::(result::Result|option::Option)", c.name or ""):
+            return self._op_class(body, args[0], vals)  # only the error / absent alternative is touched
+        if m == "map" and len(args) == 2 and re.search(r"std::(result::Result|option::Option)", c.name or "") and args[1].kind == "const" and "fn" in args[1].const:
+            fm = re.sub(r"::<.*$", "", args[1].const["fn"]).rsplit("::", 1)[-1]
+            if fm in CONVERSIONS:
+                return self._op_class(body, args[0], vals)  # payload mapped through a numeric conversion function item
         if m == "max" and len(args) == 2:
             a = self._op_class(body, args[0], vals)
             b = self._op_class(body, args[1], vals)
@@ -429,6 +456,37 @@ class Interp:
                 info = vals.get(("cmpinfo", d))
                 if info is None:
                     info = vals.get(("cmpinfo", self._root(body, d)))
+            src = self._int_switch_source(body, t.discr.place) if info is None and t.discr.place is not None else None
+            if src is not None:
+                # `match n { 0 => .., _ => .. }` / `match (a, b) { (0, _) | (_, 0) => .., }`: a switch on the integer itself
+                cur = vals.get(src)
+                if cur is None:
+                    cur = NN if is_unsigned(body.locals[src]["s"]) else T
+                listed = [v for v, _ in t.targets]
+                fkey = None
+                fel = [e for e in t.discr.place.fields() if e != "*"]
+                if fel:
+                    fkey = (t.discr.place.local,) + tuple(e[1] if e[0] in ("f", "dc") else "?" for e in fel)
+                for val, tgt in t.targets:
+                    nv = dict(vals)
+                    c2 = meet_zero(cur) if val == 0 else meet_nonzero(cur)
+                    if c2 is None:
+                        continue  # unreachable edge
+                    nv[src] = c2
+                    if fkey is not None:
+                        nv[fkey] = c2
+                    edges.append((tgt, (nv, frozenset(nonempty))))
+                nv = dict(vals)
+                if 0 in listed:
+                    c2 = meet_nonzero(cur)
+                    if c2 is not None:
+                        nv[src] = c2
+                        if fkey is not None:
+                            nv[fkey] = c2
+                        edges.append((t.otherwise, (nv, frozenset(nonempty))))
+                else:
+                    edges.append((t.otherwise, (nv, frozenset(nonempty))))
+                return edges
             for val, tgt in t.targets:
                 edges.append((tgt, self._refine(body, vals, nonempty, info, val)))
             listed = [v for v, _ in t.targets]
